@@ -74,9 +74,10 @@ func (w *recLWLS) SetLevel(l slog.Level) {
 
 var pool = map[int]io.Writer{
 	1: &recW{1}, 2: &recW{2}, 3: &recLW{recW{3}}, 4: &recLW{recW{4}}, 5: &recLS{recW{5}}, 6: &recLWLS{recW{6}},
+	7: slog.NewLogWriter(&recW{7}), // a handle made by the library's own wrapper: a LogWriter, added and removed as such
 }
 
-const poolPrelude = "Definition is_lw (w : Z) : bool := (w =? 3) || (w =? 4) || (w =? 6).\nDefinition is_ls (w : Z) : bool := (w =? 5) || (w =? 6)."
+const poolPrelude = "Definition is_lw (w : Z) : bool := (w =? 3) || (w =? 4) || (w =? 6) || (w =? 7).\nDefinition is_ls (w : Z) : bool := (w =? 5) || (w =? 6)."
 
 func widOf(w any) int {
 	switch z := w.(type) {
@@ -518,7 +519,7 @@ func genWop(r *Rng, optForm bool) WOp {
 		if optForm && (k == "RemW" || k == "RemE") {
 			continue
 		}
-		return WOp{Kind: k, L: []int{2, 3, 4, 5, 9, 11}[r.Intn(6)], W: 1 + r.Intn(6)}
+		return WOp{Kind: k, L: []int{2, 3, 4, 5, 9, 11}[r.Intn(6)], W: 1 + r.Intn(7)}
 	}
 }
 
